@@ -36,7 +36,7 @@ FOCUS = {
     "C07": dict(p_read=0.65, handles=0.3, weights={"remove": 5, "drop": 1, "update": 2, "reads": [
         "all", "len", "iter", "get_measurements", "get_tag_keys", "get_tag_values", "get_field_keys", "get_field_values",
         "get_timestamps", "get_tag_keys", "get_tag_values", "get_field_keys", "get_field_values", "get_timestamps", "count"]}),
-    "C10": dict(p_read=0.5, handles=0.9, weights={"drop": 3, "update": 4, "update_all": 2}),
+    "C10": dict(p_read=0.5, handles=0.9, weights={"remove": 5, "drop": 3, "update": 4, "update_all": 2, "negfield": 0.4}),
     "C11": dict(p_read=0.45, handles=0.2, weights={"update": 7, "update_all": 3, "insert_multiple": 5, "fail": 0.7, "bad": 0.6}),
 }
 
@@ -73,6 +73,10 @@ def random_jobs(pid, n, seed, length):
         kind, ai = traces.CONFIGS[i % 4]
         ops = g.history(g.r.choice(length), p_read=f["p_read"])
         jobs.append(("r%d" % i, kind, ai, ops, g.battery(), NTK, NFK, {"theme": "csv-hostile"} if hostile else {}))
+    for i in range(max(40, n // 10)):          # batches that are unordered within themselves (see gen.batch_scenario)
+        g = gen.Gen(seed * 7771 + i * 13 + int(pid[1:]), ntk=NTK, nfk=NFK, focus=f["weights"], handles=0.0)
+        kind, ai = traces.CONFIGS[(i % 3) if i % 4 else 1]      # mostly auto_index on
+        jobs.append(("bs%d" % i, kind, ai, g.batch_scenario(), g.battery(3), NTK, NFK))
     return jobs
 
 
@@ -187,6 +191,15 @@ def run(pid, level="model_checking"):
     sims, rs = export_paths(alpha, 10 if thorough else 8, 5, simulate="num=%d" % (800 if thorough else 80),
                             sim_depth=(11 if thorough else 9), seed=rep.seed + 1)
     jobs += path_jobs(paths, "p", bat) + path_jobs(sims, "s", bat)
+    if pid == "C11":
+        # wrongly typed arguments (the matrix of C14) as failing calls: the state after the raise is what C11 is about
+        bad_paths, _ = export_paths("bad", 6, 4)
+        keep = [p for p in bad_paths if p[-3]["entry"] in ("insert_meas", "insert_meas_stored", "update_static", "update_callable",
+                                                           "update_callable_inplace", "handle_update_callable")]
+        rnd = random.Random(rep.seed + 11)
+        if len(keep) > (3000 if thorough else 500):
+            keep = rnd.sample(keep, 3000 if thorough else 500)
+        jobs += path_jobs(keep, "b", [])
     own_all = set()
     if pid in ("C02", "C03"):
         # flush_on_insert=False: the rewrite of remove / update must not lose buffered rows; contents cannot be projected at
@@ -217,6 +230,8 @@ def run(pid, level="model_checking"):
             if own == "C10" and pid != "C10":
                 # an operation through a handle is also an operation of its own kind
                 own = traces.owner({k: v for k, v in ev["a"].items() if k != "via"}, err["clause"], ev["exc"])
+            if pid == "C11" and own == "C14" and err["clause"] != "raises":
+                own = "C11"                     # contents / index after a call that raised on a wrongly typed argument
             if tid in own_all and err["clause"] in ("result", "file", "raises"):
                 own = pid                       # in these traces every read follows a remove / update of this property
             if own != pid:
